@@ -121,7 +121,8 @@ def arg_for12(fname, i, pn, pt, writer):
 # call (harness/c12_drv.c: probe12 -> g_nv, g_nc, g_vd[], g_cd[], g_idim, g_cdim, section 1, particle zone 1, node size).
 # must = 1 only where the catalogue below knows a rule (SIDS, stated in notes/C12.md section 10); everything else is a "may":
 # the call may succeed, but when it fails nothing may have changed and no sanitizer may fire.
-#   R1 GridConnectivity_t: a PointList has at most as many entries as the zone has vertices (Vertex) / cells (CellCenter)
+#   R1 GridConnectivity_t: a PointList has at most as many entries as the zone has vertices (Vertex) / cells (CellCenter);
+#      Abutting1to1: the donor list has exactly as many entries as the point set
 #   R2 GridConnectivity1to1_t: PointRange inside [1, VertexSize]; R6: range and donor range span the same number of points
 #   R3 partial / general access to coordinates, solutions, particle data: rmin >= 1 - rind, rmax <= size + rind at the
 #      location of the data (vertex or cell sizes; the templates have no rind planes)
@@ -163,7 +164,10 @@ def bound_variants(name, params, vals):
             add("bound-range-end+1%s" % ("@" + lname if lname else ""), "pnts", 0, pnts="RNGV(%d, 0, 1)" % cell, **kw)
             add("bound-range-start-0%s" % ("@" + lname if lname else ""), "pnts", 0, pnts="RNGV(%d, -1, 0)" % cell, **kw)
     if name == "cg_conn_write":
-        add("bound-donor-npnts+1", "ndata_donor", 0, ptset_type="CGNS_ENUMV(PointList)", npnts="2", pnts="BIGP", ndata_donor="3", donor_data="BIGP")
+        add("bound-donor-npnts+1", "ndata_donor", 1, ptset_type="CGNS_ENUMV(PointList)", npnts="2", pnts="BIGP", ndata_donor="3", donor_data="BIGP",
+            type="CGNS_ENUMV(Abutting1to1)")
+        add("bound-donor-npnts", "ndata_donor", 0, ptset_type="CGNS_ENUMV(PointList)", npnts="2", pnts="BIGP", ndata_donor="2", donor_data="BIGP",
+            type="CGNS_ENUMV(Abutting1to1)")
     if name == "cg_particle_sol_ptset_write":
         for tag, ex in (("size", "g_psz"), ("size+1", "(g_psz + 1)")):
             add("bound-list-" + tag, "npnts", 0, ptset_type="CGNS_ENUMV(PointList)", npnts=ex, pnts="BIGP")
@@ -468,6 +472,8 @@ def judge(c, e, mode, must=1):
         bad.append("session view changed")
     if c.get("sel") == "CHANGED" and c.get("st") not in (None, "0"):
         bad.append("selection state changed (current position / configuration)")
+    if c.get("sel") == "UNSET" and c.get("st") not in (None, "0"):
+        bad.append("selection state changed: the current position is unset after the call")
     if c.get("tree") not in ("same",):
         bad.append("file content %s" % c.get("tree"))
     if mode == 0 and c.get("file") == "CHANGED":
@@ -539,17 +545,19 @@ def finding_key(fn, var, what, state, F, claims, bad_long=frozenset(), doc="Writ
             return "cgi_get_zcoorGC:Z:container-created-before-validation"
         if "cgi_get_particle_pcoorPC" in cs:
             return "cgi_get_particle_pcoorPC:P:container-created-before-validation"
-    if any("selection state" in w for w in what) and re.match(r"cg_go(to|rel|path|list)", fn) and not accepted:
-        return "cgi_set_posit:position:changed-by-failed-goto"     # the position is reset / partly updated before the path is validated
-    if changed and not accepted and state in NO_ZGC_STATES and fn in ZGC_CREATORS and not any("file content" in w for w in what):
-        # the ZoneGridConnectivity_t container of a zone that has none is created and counted before the arguments are checked
+    if any("position is unset" in w for w in what) and re.match(r"cg_go(to|rel|path|list)", fn) and not accepted:
+        # every failing branch of cgi_set_posit / cgi_update_posit executes `posit = 0`: a failed navigation leaves NO position
+        # (a position that MOVED elsewhere is not covered by this key)
+        return "cgi_set_posit:position:changed-by-failed-goto"
+    if changed and not accepted and fn in ZGC_CREATORS and not any("file content" in w for w in what):
+        # the view changed but not the file: the empty ZoneGridConnectivity_t container of a zone that has none (bare12, unstr,
+        # Zone2 of rich12) was created and counted before the arguments were checked
         return "cg_1to1_write:range:range" if fn == "cg_1to1_write" else "%s:Z:container-created-before-validation" % ZGC_CREATORS[fn]
     if fam == "index" and accepted and fn in TOLERANT_COUNTERS:
         return "%s:B/Z:index" % fn                       # one missing test of the getter's result per function
     return "%s:%s:%s" % (fn, var["param"], fam)
 
 
-NO_ZGC_STATES = {"bare12", "unstr"}          # templates whose zone (1,1) has no ZoneGridConnectivity_t
 ZGC_CREATORS = {"cg_1to1_write": "cg_1to1_write", "cg_conn_write": "cg_conn_write", "cg_conn_write_short": "cg_conn_write", "cg_hole_write": "cg_hole_write"}
 # the count functions that report 0 with CG_OK when the getter of their container fails (Validate.known_tolerant [G])
 TOLERANT_COUNTERS = {"cg_ncoords", "cg_nholes", "cg_nconns", "cg_n1to1", "cg_n1to1_global", "cg_nbocos", "cg_particle_ncoords"}
